@@ -30,8 +30,9 @@ ASSUMPTIONS = ["'\\r' excluded from text (XML end-of-line normalisation by the p
                "property names are identifiers; values None/bool/float are outside the quantifier",
                "empty graphs are outside the domain (serialize_graph documents returning None)",
                "on the per-graph store a re-import under an existing id is a documented skip (C04's subject)"]
-BUDGET = {"quick": 1600, "thorough": 40000}
-MIN_LABEL_FRACTION = {"nontrivial": 0.4, "has-int": 0.3, "has-hard-text": 0.5, "disjoint": 0.25, "mixed-typing": 0.03}
+BUDGET = {"quick": 1100, "thorough": 40000}
+MIN_LABEL_FRACTION = {"nontrivial": 0.4, "has-int": 0.25, "has-hard-text": 0.4, "disjoint": 0.15, "mixed-typing": 0.03,
+                      "topo": 0.08, "raw": 0.6}
 
 CLASSES = ["NetworkNode", "Component", "NetworkService", "ConnectionPoint", "Link", "CompositeNode", "CompositeLink",
            "MeasurementPoint"]
@@ -71,8 +72,27 @@ def _raw_case(draw):
             "pre": draw(st.lists(raw_desc(max_nodes=3, max_edges=2, simple_ids=True), max_size=2))}
 
 
+@st.composite
+def _topo_case(draw):
+    from fimverif.engines import topo
+    flavour = draw(st.sampled_from(["experiment", "experiment", "substrate"]))
+    w = {"validate": 0, "serialize_load": 0, "prune": 0, "connect": 8, "add_child": 5, "peer": 3, "add_link": 6}
+    prog = draw(topo.program(flavour, max_ops=22, min_ops=6, weights=w))
+    # free-text properties with adversarial content on some elements
+    extra = draw(st.lists(st.builds(
+        lambda kind, k, txt, pn: {"op": "set_prop", "kind": kind, "k": k, "pname": pn, "val": txt, "h": 1},
+        st.sampled_from(["node", "component", "service", "interface", "link"]), st.integers(0, 7),
+        values.xml_text(max_size=20), st.sampled_from(["details", "details", "boot_script"])), max_size=4))
+    return {"kind": "topo", "flavour": flavour, "prog": prog + extra}
+
+
+def enumerate_cases(tier):
+    for name in ("RENCI-ad.graphml", "UKY-ad.graphml", "LBNL-ad.graphml", "Network-ad.graphml"):
+        yield {"kind": "file", "name": name, "adms": True}
+
+
 def strategy(tier):
-    return _raw_case()
+    return st.one_of(_raw_case(), _raw_case(), _raw_case(), _raw_case(), _raw_case(), _topo_case())
 
 
 # ------------------------------------------------------------------ independent readers
@@ -287,7 +307,7 @@ def roundtrip_battery(imp, fl, gid, viol, protect=(), deep=None):
 
 
 def run_case(case):
-    if case.get("kind") == "topo":
+    if case.get("kind") in ("topo", "file"):
         from fimverif.props import c01_topo
         return c01_topo.run_topo_case(case)
     store.reset_stores()
